@@ -40,7 +40,7 @@ MANIFEST_TEXT = ('Explicit-state exploration of every operation history up to de
 MANIFEST_NOTE = 'Trusted: NumPy, engine/observe.py, models/formats.py. Depth and root files bound the space.'
 TECHNIQUE = 'explicit-state BFS over operation histories, two implementations in lock-step, replay on fresh objects'
 
-ROOT_FORMATS = ['bed3', 'bed6', 'bedgraph', 'narrowpeak', 'vcf', 'vcf_header', 'sam', 'sam_notags', 'fastq', 'fasta2', 'gff3',
+ROOT_FORMATS = ['bed3', 'bed6', 'bed12', 'bedgraph', 'narrowpeak', 'vcf', 'vcf_header', 'sam', 'sam_notags', 'fastq', 'fasta2', 'gff3',
                 'chromsizes', 'pairs', 'gfa', 'bam']
 ROOT_FILES = [(0, 1, 2), (1, 0), (2,)]
 MODES = ['whole', 'first_chunk', 'concat_chunks']
